@@ -38,6 +38,9 @@ def cases(tier, rng):
                 "tilt": [0.0, 0.0] if rng.random() < 0.6 else [float(rng.uniform(-80, 80)), float(rng.uniform(-80, 80))],
                 "pos_frac": [float(x) for x in rng.random(3)],
                 "seed": int(rng.integers(1 << 30)),
+                # every third layer set is kappa-graded (real coordinate stretching from 1 at the interface to
+                # kappa_end at the wall, the standard CPML option); the reference domain keeps default layers
+                "kappa_end": float(rng.uniform(4.0, 12.0)) if i % 3 == 1 else None,
             }
         )
     if tier == "thorough":
@@ -75,6 +78,8 @@ def _build(c, thickness, margin):
     s = scenes.default_scene(shape=(N, N, N), steps=T, spacing=spacing)
     for f in scenes.FACES:
         s["faces"][f] = {"type": "pml", "thickness": thickness}
+        if c.get("kappa_end") is not None and margin == 0:
+            s["faces"][f]["kappa_end"] = c["kappa_end"]
     off = margin + thickness
     pos = [off + 2 + int(round(p * (n_in - 5))) for p in c["pos_frac"]]
     s["sources"] = [
@@ -108,6 +113,8 @@ def _dipole(c, r):
     sig = (c["thickness"], c["source_type"], c["polarization"], c["tilt"] != [0.0, 0.0], pos_class)
     r.branch(f"thickness:{c['thickness']}")
     r.branch("type:" + c["source_type"])
+    r.branch("kappa:" + ("graded" if c.get("kappa_end") is not None else "default"))
+    sig = sig + (c.get("kappa_end") is not None,)
     r.worst("worst_residual_energy", resid)
     wit = {"case": c, "steps": T, "peak_energy": peak, "final_energy": float(en[-1]), "residual": resid}
     if not np.all(np.isfinite(en)):
